@@ -334,6 +334,12 @@ def all_obligations():
              functions=['decode'], flags=['--unwind', '8', '--unwindset', 'decode.0:258,h_decode_ibwt.4:258', '--unwinding-assertions'], timeout=1200,
              expect=['decode\\(\\): walking the list from the primary index', 'decode\\(\\): list pointers stay inside'], replayable=True, replay_src='decode.c'))
 
+    A(Ob(name='encode.encoder_init', props=['C01', 'C04', 'C02'], kind='proof', harness='h_collect.c', entry='h_encoder_init', extra_srcs=['src/crctab.c'], defines={'CAP': '3', 'FILL': '0', 'RUNK': '0', 'NIN': '1'},
+         what='encoder_init(): every block starts from the empty saved state (no bytes, no pending run, CRC start value, empty in-use map) with the requested capacity -- the state the collect() instances start from',
+         functions=['encoder_init'], flags=['--unwind', '258', '--unwinding-assertions'], expect=['encoder_init: empty block'], replayable=True))
+    A(Ob(name='encode.make_map_e', props=['C01', 'C02', 'C08'], kind='proof', harness='h_collect.c', entry='h_make_map_e', extra_srcs=['src/crctab.c'], defines={'CAP': '3', 'FILL': '0', 'RUNK': '0', 'NIN': '1'},
+         what='make_map_e(): for every in-use map the used byte values are numbered 0,1,2.. in ascending order and their count is returned (ghost index over all 256 values)',
+         functions=['make_map_e'], flags=['--unwind', '258', '--unwinding-assertions'], expect=['make_map_e: every byte value is mapped'], replayable=True))
     # ---------------- encode.c do_mtf(): MTF + zero-run coder against the inverse of the format (C01 O1.3)
     for n, a, tier in ((5, 3, 'quick'), (6, 4, 'thorough'), (7, 3, 'thorough')):
         A(Ob(name=f'encode.do_mtf.n{n}a{a}', props=['C01', 'C02', 'C08'], kind='bounded', tier=tier, harness='h_do_mtf.c', entry='h_do_mtf', extra_srcs=['src/crctab.c'], solver='cadical',
@@ -439,6 +445,8 @@ def all_obligations():
           ('copy_terminate', 'h_copy_terminate', ['C19'], [], 'copy_terminate(): the copy ends exactly when end of input was seen and no buffer is in flight', ['copy ends exactly when end of input was seen'], []),
           ('init_io', 'h_init_io', ['C18', 'C19', 'C11'], [], 'init_io(): request_close and finish are cleared and the output queue is emptied and sized for every run (compression, decompression and the -cdf copy), whatever the previous operand left',
            ['init_io\\(\\): every run starts with no close request'], []),
+          ('copy', 'h_copy', ['C19', 'C18'], [], 'copy(): the -cdf pass-through starts from reset state (eof, both slot counters = 2, no close/finish request, empty output queue), runs the copy callbacks with two 64 KiB buffers between one reader and one writer, waits once and joins both threads',
+           ['copy\\(\\): before its threads start', 'copy\\(\\): the pseudo process has no tasks'], ['CANARY copy waits for completion']),
           ('primary_prologue', 'h_primary_prologue', ['C18', 'C11'], [], 'primary_thread(): eof, in_slots, out_slots, work_units are reset to their canonical values before init() and before any thread of the run exists, whatever the previous operand left',
            ['every run starts from the canonical counters'], ['CANARY prologue complete'])]
     for fn, entry, pr, repl, what, exp, can in PT:
